@@ -259,8 +259,10 @@ def proved_tier(rep: Report, pid: str, seed: int, expected_min_obligations: int 
         reachable = 0
         for o in r["obligations"]:
             if o["kind"] == "cover":
-                if o["verdict"] == "reachable":
+                if o["verdict"] in ("reachable", "cover-unknown"):
                     reachable += 1
+                    if o["verdict"] == "cover-unknown":
+                        rep.assume(f"{key}: reachability of {o['name']} not decided by the solver (not dead, not confirmed)")
                 elif o["verdict"] == "dead" and o["name"] in ("cover-requires", "cover-hyps"):
                     rep.checker_error(f"{key}: vacuous contract, pre-condition unsatisfiable")
                 continue
